@@ -570,7 +570,11 @@ def c09(res, wd):
             v = rng.randrange(2)
             p["outages"] = [{"from": 1 - v, "to": v, "start": 400, "len": rng.choice([80, 120, 200])}]
             p["cfg"]["window"] = max(p["cfg"]["window"], 8)
+            p["cfg"]["desync"] = rng.choice([1, 1, 2])      # the jump must span several report intervals
+            p["frames"] = f0b + 8 * p["cfg"]["desync"] + 60
             p["tick_ms"] = [16, 16]
+            p["jitter"] = 0
+            p["lat_lo"], p["lat_hi"] = 5, 10
         det.append(p)
     engines.obs_runs(res, "C09", det, {"C09"}, wd, "c09det", nontrivial=lambda st, pl: st["events"] >= 1)
     res.rule = ("false-alarm half: no DesyncDetected event in any exhaustive model run (interval 1..2), replayed TLC "
